@@ -5,12 +5,13 @@
 (* three provider stacks.                                                             *)
 EXTENDS Oov, Json
 
-CONSTANTS MaxLen
+CONSTANTS MaxLen, MaxLen2
 
 AllC == {"DEFAULT", "KANJI", "HIRAGANA", "ALPHA", "NUMERIC", "KATAKANA"}
 LK == {"KANJI"}  LH == {"HIRAGANA"}  LA == {"ALPHA"}  LN == {"NUMERIC"}  LT == {"KATAKANA"}
 LM == AllC \cup {"NOOOVBOW"}  LJ == AllC \cup {"NOOOVBOW2"}  LD == {"KANJI", "NUMERIC"}  LO == {"DEFAULT"}
-Letters == <<LK, LH, LA, LN, LM, LJ, LD, LO, LT>>
+LE == {"KANJI", "NUMERIC", "KATAKANA"}
+Letters == <<LK, LH, LA, LN, LM, LJ, LD, LO, LT, LE>>
 \* a code point per letter, for the regex provider and for the replayer's generated char.def
 CpOf(k) == 57344 + k
 
@@ -39,7 +40,17 @@ MPick == /\ which = <<0, 0>>
               /\ cats' = [i \in 1..n |-> Letters[t[i]]]
               /\ text' = [i \in 1..n |-> CpOf(t[i])]
               /\ info' = Infos[a] /\ providers' = Stacks[b] /\ which' = <<a, b>> /\ UNCHANGED unk
-MNext == MPick
+\* every pair of invoke / group / length settings for the two classes of the double letter (and the first two of the triple letter):
+\* what one class of a character does to the candidates of the next (texts over K, N, combining, K+N, K+N+T; MeCab + simple)
+Settings == {[invoke |-> i, group |-> g, length |-> n] : i \in BOOLEAN, g \in BOOLEAN, n \in 0..2}
+SIdx(x) == (IF x.invoke THEN 6 ELSE 0) + (IF x.group THEN 3 ELSE 0) + x.length
+MPick2 == /\ which = <<0, 0>>
+          /\ \E n \in 1..MaxLen2 : \E t \in [1..n -> {1, 4, 5, 7, 10}] : \E a \in Settings, b \in Settings :
+              /\ cats' = [i \in 1..n |-> Letters[t[i]]]
+              /\ text' = [i \in 1..n |-> CpOf(t[i])]
+              /\ info' = [Infos[1] EXCEPT !.KANJI = a, !.NUMERIC = b]
+              /\ providers' = Stacks[1] /\ which' = <<100 + 12 * SIdx(a) + SIdx(b), 1>> /\ UNCHANGED unk
+MNext == MPick \/ MPick2
 MSpec == MInit /\ [][MNext]_mvars
 
 \* with a fallback provider every position gets a candidate
